@@ -1127,7 +1127,7 @@ func (e *Exec) autoInv(env *Env, b *ssa.BasicBlock) []string {
 		if !ok {
 			break
 		}
-		if _, ok := phi.Type().Underlying().(*types.Slice); ok {
+		if _, ok := phi.Type().Underlying().(*types.Slice); ok && !(e.contract != nil && e.contract.NoSliceFacts) {
 			t := env.phi[phi.Comment]
 			slices = append(slices, t)
 			out = append(out, fmt.Sprintf("(and (>= (base %s) nextRef0) (< (base %s) %s) (= (off %s) 0) (<= 0 (len %s)) (<= (len %s) (cap %s)))", t, t, env.st.nextRef, t, t, t, t))
